@@ -183,6 +183,20 @@ def driver_query(lines, timeout=1800):
     return out
 
 
+_KINDS = ["ParserError", "InvalidOperation", "UnicodeError", "OverflowError", "ZeroDivisionError", "IndexError", "KeyError",
+          "StopIteration", "AssertionError", "AttributeError", "TypeError", "ValueError"]
+
+def exc_kind(ex):
+    """canonical exception kind: the nearest class of the model's PyErr enum in the MRO"""
+    names = [c.__name__ for c in type(ex).__mro__]
+    for n in names:
+        if n in _KINDS:
+            return n
+    if "DecimalException" in names or "ArithmeticError" in names:
+        return "InvalidOperation" if "InvalidOperation" in names else names[0]
+    return names[0]
+
+
 def hexs(s):
     b = s.encode("utf-8") if isinstance(s, str) else bytes(s)
     return b.hex() if b else "."
